@@ -127,15 +127,30 @@ def frame_builds(body):
     return out
 
 
-def content_sources(arg):
-    """CAS-producing calls the value of a `hash` setter comes from."""
+def content_sources(arg, facts=None, depth=0):
+    """CAS-producing calls the value of a `hash` setter comes from (looking through crate-local helpers that return it)."""
     if arg is None:
         return []
     found = []
     for o in list(q.origins(arg)) + [arg]:
         for y in walk(o):
-            if y[0] == "call" and y[1].fn in CAS_PRODUCERS:
+            if y[0] != "call":
+                continue
+            if y[1].fn in CAS_PRODUCERS:
                 found.append(y[1])
+            elif y[1].local and facts is not None and depth < 3:
+                fb = facts.body(y[1].fn)
+                cands = []
+                if fb is not None:
+                    rets = fb.return_defs()
+                    if len(rets) == 1 and strip(rets[0][1])[0] == "agg" and strip(rets[0][1])[1].get("agg") == "coroutine":
+                        inner = facts.body(strip(rets[0][1])[1]["def"])
+                        cands = [inner] if inner is not None else []
+                    else:
+                        cands = [fb]
+                for cb in cands:
+                    for (bb, e, raw) in cb.return_defs():
+                        found += content_sources(e, facts, depth + 1)
     return found
 
 
